@@ -233,7 +233,7 @@ class CallMixin:
         if recv.k == 'con':
             ev = self.emit(st, 'EXT', node, name='sqlite3.Connection.' + name, args=args, kwargs=kwargs)
             return self.after_call(ev, [(V('ext', 'con.' + name, ev.seq), st)])
-        ev = self.emit(st, 'MCALL', node, recv=recv, name=name, args=args, kwargs=kwargs)
+        ev = self.emit(st, 'MCALL', node, recv=recv, name=name, args=args, kwargs=kwargs, starkw=starkw)
         return self.after_call(ev, [(V('mcall', name, ev.seq), st)])
 
     def call_targets(self, targets, recv, name, args, kwargs, node, st, starkw, operator=False, via_super=False):
